@@ -18,6 +18,9 @@ type GuardSpec struct {
 	Mutex   string
 	Guarded map[string]bool   // field names that need the lock
 	Exempt  map[string]string // "funcKey" or "funcKey#field" -> reason (tabled idioms)
+	// Exclusive: only the write lock counts (the guarded fields are modified even by "reads",
+	// e.g. a StateDB whose getters fill caches); a shared RLock is treated as not held.
+	Exclusive bool
 	// EntryHeld lists functions documented as "caller holds the lock" that have
 	// no caller inside the package (none today; kept for completeness).
 }
@@ -145,6 +148,9 @@ func runGuardedBy(c *Ctx, spec GuardSpec) guardResult {
 	}
 	isLock := func(ci ssa.CallInstruction) bool { return lockCall(ci, "Lock", "RLock") }
 	isUnlock := func(ci ssa.CallInstruction) bool { return lockCall(ci, "Unlock", "RUnlock") }
+	if spec.Exclusive {
+		isLock = func(ci ssa.CallInstruction) bool { return lockCall(ci, "Lock") }
+	}
 
 	isT := func(t types.Type) bool {
 		if p, ok := t.Underlying().(*types.Pointer); ok {
